@@ -116,7 +116,8 @@ def build_stack(s):
     elif kind == "raised":
         err = _raised(ValueError("er1"))
     elif kind == "multiline":
-        err = ValueError("er1 first line\nsecond line\n\nfourth line")
+        # (line breaks of every kind: only "\n" may end an entry, and the tree must stay readable)
+        err = ValueError("er1 first line\nsecond line\n\nfourth line\rfifth\x0csixth\x1cseventh" + ("\u2028eighth\x85ninth" if UNI_TEXT[0] else ""))
     elif kind == "group_raised":
         err = _raised(ExceptionGroup("erg", [_raised(ValueError("er1\nmore"), 1), KeyError("er2")]))
     elif kind == "chained":
@@ -133,7 +134,10 @@ def build_stack(s):
 
 def build_frame(f):
     kw = {}
-    if f.get("lineno") is not None:
+    if f.get("lineno") == -1:
+        if sys.version_info >= (3, 10):
+            kw["lineno"] = None       # what Frame.__post_init__ copies from a frame that is between lines
+    elif f.get("lineno") is not None:
         kw["lineno"] = f["lineno"]
     return Frame(pyframe=POOL[f["fn"]].gi_frame, contexts=[build_ctx(c) for c in f.get("contexts", [])],
                  hide=f.get("hide", False), hide_line=f.get("hide_line", False), **kw)
